@@ -14,7 +14,7 @@ Matches(e) ==
   /\ (e.run = 1 => /\ inflight' = e.inflight /\ blocking' = e.blocking
                    /\ e.tracked = Cardinality({r \in Reqs : req'[r].st = "inflight"})
                    /\ Len(stash') = e.stash /\ Len(mb') = e.mlen)
-TNew == /\ life' = "running" /\ mb' = <<>> /\ cur' = NoCmd /\ ncmd' = 0 /\ nreq' = 0
+TNew == /\ life' = "running" /\ enabled' = TRUE /\ mb' = <<>> /\ cur' = NoCmd /\ ncmd' = 0 /\ nreq' = 0
         /\ req' = [r \in Reqs |-> NoReq] /\ inflight' = 0 /\ blocking' = 0 /\ stash' = <<>>
         /\ handled' = <<>> /\ cblog' = <<>>
         /\ last' = [a |-> "Init", id |-> 0, op |-> "", mode |-> "", tmo |-> FALSE, th |-> "", rq |-> 0, err |-> ""]
